@@ -487,8 +487,8 @@ impl Prop for C11 {
         }
         // memory clause
         for (chunk, gzip) in [(4096usize, None), (65_536, None), (1000, None), (4096, Some(1u32)), (4096, Some(6))] {
-            if sink.ctx.leg.slow() && chunk != 4096 {
-                continue;
+            if sink.ctx.leg.slow() {
+                continue; // 1.5 MiB of writes under an interpreter takes hours; the heap clause is native-only
             }
             if !sink.admit() {
                 return;
